@@ -146,11 +146,24 @@ func (c *Collector) AddInt(k string, n int) {
 	c.mu.Unlock()
 }
 
+// matchSig: '*' in a known-findings pattern matches any run of characters.
 func matchSig(pat, sig string) bool {
-	if strings.HasSuffix(pat, "*") {
-		return strings.HasPrefix(sig, strings.TrimSuffix(pat, "*"))
+	parts := strings.Split(pat, "*")
+	if len(parts) == 1 {
+		return pat == sig
 	}
-	return pat == sig
+	if !strings.HasPrefix(sig, parts[0]) {
+		return false
+	}
+	sig = sig[len(parts[0]):]
+	for i := 1; i < len(parts)-1; i++ {
+		j := strings.Index(sig, parts[i])
+		if j < 0 {
+			return false
+		}
+		sig = sig[j+len(parts[i]):]
+	}
+	return strings.HasSuffix(sig, parts[len(parts)-1])
 }
 
 // Finish writes the evidence file, prints KNOWN-FINDING / VIOLATION lines and returns the exit code.
@@ -166,13 +179,24 @@ func (c *Collector) Finish() int {
 	exit := 0
 	nviol := 0
 	known := []string{}
+	type kn struct {
+		sigs, occ int
+		eg        string
+	}
+	knownBy := map[int]*kn{}
 	for _, s := range sigs {
 		v := c.bySig[s]
 		isKnown := false
-		for _, f := range findings {
+		for fi, f := range findings {
 			if f.Property == v.Property && f.Status == "known" && matchSig(f.Signature, s) {
 				isKnown = true
-				fmt.Printf("KNOWN-FINDING: property=%s %s [signature %s, %d occurrence(s) this run] e.g. %s\n", v.Property, f.What, s, c.sigCount[s], v.What)
+				k := knownBy[fi]
+				if k == nil {
+					k = &kn{eg: v.What}
+					knownBy[fi] = k
+				}
+				k.sigs++
+				k.occ += c.sigCount[s]
 				known = append(known, s)
 				break
 			}
@@ -190,6 +214,15 @@ func (c *Collector) Finish() int {
 		os.WriteFile(p, b, 0o644)
 		fmt.Printf("VIOLATION property=%s replay=%s\n", v.Property, p)
 		fmt.Printf("  signature: %s (%d occurrence(s))\n  what: %s\n", s, c.sigCount[s], v.What)
+	}
+	for fi, f := range findings {
+		if k := knownBy[fi]; k != nil {
+			eg := k.eg
+			if len(eg) > 300 {
+				eg = eg[:300] + "..."
+			}
+			fmt.Printf("KNOWN-FINDING: property=%s %s [pattern %s: %d signature(s), %d occurrence(s) this run; e.g. %s]\n", f.Property, f.What, f.Signature, k.sigs, k.occ, eg)
+		}
 	}
 	cov := c.Cov
 	if _, ok := cov["samples"]; !ok {
